@@ -215,6 +215,11 @@ pub fn search<P: Prop>(p: &P, opts: &Opts) -> Outcome<P::Case> {
         cur.resize(threads, (u64::MAX, Instant::now()));
     }
     let watchdog_done = AtomicBool::new(false);
+    let trace_file: Option<Mutex<std::fs::File>> = std::env::var("VERIF_TRACE_FILE")
+        .ok()
+        .and_then(|p| std::fs::File::create(p).ok())
+        .map(Mutex::new);
+    let trace_file = &trace_file;
     // block size: big enough to keep contention low, small enough to balance short batches
     let block: u64 = (total / (threads as u64 * 8)).clamp(1, 64);
 
@@ -268,6 +273,13 @@ pub fn search<P: Prop>(p: &P, opts: &Opts) -> Outcome<P::Case> {
                         {
                             let mut cur = CURRENT.lock().unwrap();
                             cur[w] = (run, Instant::now());
+                        }
+                        if let Some(f) = trace_file.as_ref() {
+                            // crash location: the run index survives the death of the process
+                            use std::io::{Seek, SeekFrom, Write};
+                            let mut f = f.lock().unwrap();
+                            let _ = f.seek(SeekFrom::Start(0));
+                            let _ = writeln!(f, "{run:>20}");
                         }
                         let mut rng = Rng::new(mix(opts.seed, tag, run));
                         let case = p.gen(&mut rng, opts.tier);
